@@ -6,10 +6,10 @@ From SV Require Import Base.Ids Bits.Hibit Bits.HibitIter Bits.HibitOrder Bits.H
 Import ListNotations.
 Local Open Scope N_scope.
 
-Inductive bop := BAdd (i : N) | BRemove (i : N).
-Definition bop_index (o : bop) : N := match o with BAdd i | BRemove i => i end.
-Definition bs_do (s : bitset) (o : bop) : bitset := match o with BAdd i => bs_add s i | BRemove i => bs_remove s i end.
-Definition ns_do (m : NS.t) (o : bop) : NS.t := match o with BAdd i => NS.add i m | BRemove i => NS.remove i m end.
+Inductive bop := BAdd (i : N) | BRemove (i : N) | BClear.
+Definition bop_index (o : bop) : N := match o with BAdd i | BRemove i => i | BClear => 0 end.
+Definition bs_do (s : bitset) (o : bop) : bitset := match o with BAdd i => bs_add s i | BRemove i => bs_remove s i | BClear => bs_empty end.
+Definition ns_do (m : NS.t) (o : bop) : NS.t := match o with BAdd i => NS.add i m | BRemove i => NS.remove i m | BClear => NS.empty end.
 
 Definition represents (s : bitset) (m : NS.t) : Prop := bs_inv s /\ forall x, mem s x <-> NS.In x m.
 
@@ -21,7 +21,7 @@ Qed.
 
 Lemma represents_do s m o : represents s m -> bop_index o < top -> represents (bs_do s o) (ns_do m o).
 Proof.
-  intros [I R] Ho. destruct o as [i|i]; cbn [bs_do ns_do bop_index] in *.
+  intros [I R] Ho. destruct o as [i|i|]; cbn [bs_do ns_do bop_index] in *; [| |apply represents_empty].
   - split; [apply add_inv; assumption|]. intros x. rewrite (add_mem s i I Ho x), NS.add_spec, R. reflexivity.
   - split; [apply remove_inv; assumption|]. intros x. rewrite (remove_mem s i I x), NS.remove_spec, R. tauto.
 Qed.
